@@ -496,11 +496,13 @@ impl Spell {
     pub fn unum(&mut self, v: u32) -> String {
         if self.radix_mix {
             if let Some(r) = &mut self.rng {
+                // leading zeros are not significant in any radix: now and then a few, or more than the operand is wide
+                let pad = if r.chance(1, 5) { "0".repeat(*r.pick(&[1usize, 2, 4, 8, 13, 16, 17, 24])) } else { String::new() };
                 return match r.below(4) {
-                    0 => format!("0x{:x}", v),
-                    1 => format!("0X{:X}", v),
-                    2 => format!("0b{:b}", v),
-                    _ => format!("{}", v),
+                    0 => format!("0x{}{:x}", pad, v),
+                    1 => format!("0X{}{:X}", pad, v),
+                    2 => format!("0b{}{:b}", pad, v),
+                    _ => format!("{}{}", pad, v),
                 };
             }
         }
